@@ -398,7 +398,8 @@ def _dot_is_looked_at_rule(ctx, res) -> None:
     `len(fo) ` the last non-blank character before the cursor is the end of the previous expression.)"""
     idx = ctx.idx
     f = idx.need_func("rope.base.worder._RealFinder.get_splitted_primary_before")
-    cfg = CFG(f.node)
+    from . import common as _common
+    cfg = CFG(_common.inlined(idx, f))  # (an arm of the function may have been moved into a private method)
     dot_edges = []
     for t in cfg.nodes:
         if t.kind == "test" and isinstance(t.ast, ast.Compare) and len(t.ast.ops) == 1 and isinstance(t.ast.ops[0], (ast.Eq, ast.NotEq)) \
